@@ -41,9 +41,10 @@
 (* 4 layouts, 2 tags, depth 0 / 0..1, 4 occupancy maps per cell; generator *)
 (* sizes 1..5 / 1..8, grids to 3x3 / 4x4, h-trees to 2 / 3 levels; FloorSet*)
 (* instances of 1..2 blocks from 3 polygon shapes, 3 kinds, 3 pin sets and *)
-(* weighted wirings; netlists of <= 2 / <= 3 modules from a catalogue of 7 *)
+(* weighted wirings; netlists of <= 2 / <= 3 modules from a catalogue of 8 *)
 (* (soft with centre, soft with a region rectangle, soft orthogon, hard,   *)
-(* flippable hard orthogon, fixed, terminal) with <= 1 / <= 2 weighted     *)
+(* flippable hard orthogon, fixed, terminal, fixed terminal) with <= 1 /   *)
+(* <= 2 weighted                                                           *)
 (* nets); Docs_gen_* = the same with EMIT.                                 *)
 (*                                                                         *)
 (* Numbers: areas <<n, d>> and centres <<xn, yn, d>> are rationals with a  *)
@@ -149,6 +150,7 @@ Hard == <<1, 0, 0, 0>>
 Flip == <<1, 0, 0, 1>>
 Fixed == <<1, 1, 0, 0>>
 Terminal == <<1, 0, 1, 0>>
+FixedTerminal == <<1, 1, 1, 0>>          \* a fixed pin: `terminal: true, fixed: true, center: [..]`
 Mod(n, k, a, c, r) == [name |-> n, kind |-> k, area |-> a, center |-> c, rects |-> r]
 One == <<1, 1>>
 Net(p, w) == [pins |-> p, w |-> w]
@@ -329,7 +331,8 @@ Catalogue == << Mod("A", Soft, <<4, 1>>, <<2, 2, 2>>, <<>>),
                 Mod("H", Hard, <<0, 1>>, <<>>, << <<4, 0, 6, 2, Ground>> >>),
                 Mod("P", Flip, <<0, 1>>, <<>>, << <<4, 2, 6, 4, Ground>>, <<4, 4, 5, 5, Ground>> >>),
                 Mod("F", Fixed, <<0, 1>>, <<>>, << <<6, 0, 8, 2, Ground>> >>),
-                Mod("T", Terminal, <<0, 1>>, <<0, 6, 2>>, <<>>) >>
+                Mod("T", Terminal, <<0, 1>>, <<0, 6, 2>>, <<>>),
+                Mod("G", FixedTerminal, <<0, 1>>, <<16, 6, 2>>, <<>>) >>
 MaxMods == IF Thorough THEN 3 ELSE 2
 ModSets == { S \in SUBSET (1..Len(Catalogue)) : Cardinality(S) \in 1..MaxMods }
 ModSeq(S) == LET idx == SetToSortSeq(S, <) IN [k \in DOMAIN idx |-> Catalogue[idx[k]]]
